@@ -833,7 +833,7 @@ def run(res, tier, seed, proofs_ok):
 def _run(res, tier, seed, proofs_ok):
     rng = random.Random(seed)
     quick = tier == 'quick'
-    per_tag = 48 if quick else 450
+    per_tag = 44 if quick else 450
     n_bad = 420 if quick else 3500
     res.rule = ('one surface card per case: every mnemonic of the mcnp2cad '
                 'table in every form (4- and 9-entry P, K with/without sheet '
@@ -1139,7 +1139,7 @@ def _run(res, tier, seed, proofs_ok):
         if mn == 'p' and len(prm) == 9 and in_p3_band(prm):
             res.count('sweep:p3-inside-the-band')
         status, detail = sweep_card(rng, mn, prm,
-                                    30 if quick else 120, 6 if quick else 25)
+                                    24 if quick else 120, 5 if quick else 25)
         swept[key] = status
         res.count('sweep:' + status)
         res.count('sweep-tag:' + tag)
